@@ -22,6 +22,8 @@ def run(ctx, sess):
     from .common import relay
     from . import c06 as _src_c06
     relay(ctx, sess, _src_c06.run, {'C06.3': 'C07.10'})
+    ctx.rule('C07.14', 'an accepted message is applied as it was submitted: the consumer reads the payload in place, so the message is popped only after it was processed - a slot that is released first can be handed to a producer while the writer thread still reads it (shared with C06.6)')
+    relay(ctx, sess, _src_c06.run, {'C06.6': 'C07.14'}, minimum=3)
     P, L = setup(sess)
     exc = exceptions('C07')
     ctx.rule('C07.1', 'flush ticket is published only after the file was synced: jls_wr_flush (which reaches fsync) dominates every store to flush_processed_id in the consumer')
